@@ -140,6 +140,10 @@ def pmatch(toks, s):
 
 
 # ---------------------------------------------------------------------------------------------
+class LostTrack(Exception):
+    """the oracle cannot follow the responders' state any further (see resync_one)"""
+
+
 class Check(common.Check):
     PROP = 'C18'
     LEAN_TARGETS = ['Sc3Verif.C18.Props']
@@ -774,8 +778,10 @@ class Check(common.Check):
         if case['k'] == 'match':
             io = {'ok True': 'True', 'ok False': 'False', 'err re.error': 're.error'}.get(io, io)
         if case['k'] == 'hist':
-            io = [x.rstrip() for x in io]
-            mo = [x.rstrip() for x in mo]
+            # the order in which the two dispatchers (members of a SET) are called is not claimed; the flag fed to
+            # the model from the real run can be stale when one case occurs twice in a batch
+            io = [self.norm_groups(x.rstrip()) for x in io]
+            mo = [self.norm_groups(x.rstrip()) for x in mo]
         if io == mo:
             return None
         if isinstance(io, list) and isinstance(mo, list):
@@ -783,6 +789,20 @@ class Check(common.Check):
                 if a != b:
                     return {'op_index': i, 'op': case['ops'][i] if i < len(case['ops']) else None, 'impl': a, 'model': b}
         return {'impl': io, 'model': mo}
+
+    @staticmethod
+    def norm_groups(line):
+        if not line.startswith('recv '):
+            return line
+        out = []
+        for m in line[5:].split(' || '):
+            if not m.startswith('['):
+                out.append(m); continue
+            k = m.find(']')
+            toks = m[1:k].split()
+            out.append('[' + ' '.join(sorted(t for t in toks if not t.startswith('!')) + [t for t in toks if t.startswith('!')])
+                       + m[k:])
+        return 'recv ' + ' || '.join(out)
 
     # ---- property oracle (independent of the Lean model) ---------------------------------------
     def oracle(self, c, o):
@@ -956,7 +976,10 @@ class Check(common.Check):
                         if not r['perm']:
                             r['cmd'] = False
             elif k == 'recv':
-                v = self.oracle_recv(op, out, R, i)
+                try:
+                    v = self.oracle_recv(op, out, R, i)
+                except LostTrack:
+                    return None          # no opinion about the rest of this history (the Lean model still is compared)
                 if v:
                     return v
         return None
@@ -1101,6 +1124,10 @@ class Check(common.Check):
     @staticmethod
     def resync_one(fids, R, d):
         """after a delivery the oracle has no opinion about: one-shot responders that fired are gone"""
+        for f in set(fids):
+            cands = [r for r in R.values() if r['enabled'] and r['kind'] == d and r['fid'] == f]
+            if len(cands) > 1 and any(r['once'] for r in cands):
+                raise LostTrack()       # a shared callback: which of its responders fired cannot be told from outside
         for f in fids:
             for r in R.values():
                 if r['enabled'] and r['kind'] == d and r['fid'] == f and r['once']:
